@@ -342,6 +342,9 @@ func TestVerif_C07_TokenCreate(t *testing.T) {
 					violate("policy-outside-parent", "role without policy lists: non-sudo caller obtained policy %q which the parent does not have", p)
 				}
 			}
+			if role.period == 0 && !isSudo && periodV != "<nil>" && periodV != "0" && periodV != "" {
+				violate("period-without-sudo-through-role", "non-sudo caller obtained a periodic token (period %v) through a role that configures no period", ld["period"])
+			}
 			if orphan != role.orphan {
 				violate("role-orphan-mismatch", "role orphan=%v but the token's orphan=%v", role.orphan, orphan)
 			}
@@ -434,6 +437,10 @@ func TestVerif_C07_Login(t *testing.T) {
 		env.n++
 		tc := env.tc
 		pols := subset(rt, "authPolicy", []string{"pa", "pb", "default", "root", "response-wrapping", "control-group"}, 3)
+		// auth backends are not obliged to hand back canonical (trimmed, lower-case) policy names
+		if fairIndex(rt, "spelling", 3) == 0 {
+			pols = append(pols, []string{"Root", " root", "ROOT ", " Response-Wrapping ", "rOOt"}[fairIndex(rt, "odd", 5)])
+		}
 		ttl := []time.Duration{0, 10 * time.Minute, 3 * time.Hour, 100 * time.Hour}[fairIndex(rt, "ttl", 4)]
 		var period, explicitMax time.Duration
 		if fairIndex(rt, "period", 4) == 0 {
@@ -451,7 +458,13 @@ func TestVerif_C07_Login(t *testing.T) {
 		env.hub.mu.Unlock()
 		res := tc.do(&logical.Request{Operation: logical.UpdateOperation, Path: "auth/ra/login", Data: map[string]any{"user": "u"}})
 		detail := map[string]any{"auth_policies": pols, "ttl": ttl.String(), "period": period.String(), "explicit_max": explicitMax.String(), "type": typ.String(), "num_uses": numUses, "result": res.String()}
-		nt := has(pols, "root") || has(pols, "response-wrapping") || ttl > c07MountMax || period > c07MountMax
+		odd := false
+		for _, p := range pols {
+			if c := strings.ToLower(strings.TrimSpace(p)); c != p && (c == "root" || c == "response-wrapping") {
+				odd = true
+			}
+		}
+		nt := odd || has(pols, "root") || has(pols, "response-wrapping") || ttl > c07MountMax || period > c07MountMax
 		created := res.ok() && res.resp != nil && res.resp.Auth != nil && res.resp.Auth.ClientToken != ""
 		rec.Case(map[bool]string{true: "login-ok", false: "login-refused"}[created], nt, verifx.Digest(pols, ttl, period, explicitMax, typ, numUses), func() any { return detail })
 		if !created {
